@@ -10,7 +10,7 @@ From Coq Require Import List Bool Arith NArith.
 From TV Require Import Model.Engine Model.EngineToy Proofs.EngineMemo Proofs.EngineDirty Proofs.EngineHistory
   Proofs.EngineScribble Proofs.EngineToyProofs Proofs.EngineNoScribble
   Model.EngineLayouts Model.EngineLayoutsToy Proofs.EngineLayoutsPlain Proofs.EngineLayoutsMemo Proofs.EngineLayoutsHistory
-  Proofs.EngineLayoutsToy Model.EngineReplay Proofs.EngineReplay.
+  Proofs.EngineLayoutsToy Model.EngineReplay Proofs.EngineReplay Proofs.EngineTotal.
 Import ListNotations.
 
 (* a memoised evaluation returns what the cache-free evaluation of the same skeleton returns, keeps every cache entry
@@ -252,6 +252,76 @@ Example C01_hypotheses_satisfiable :
   run_ok TS TIn TOut TLay t_mode t_in_eqb t_is_none 0%N 0%N t_algo' ex_tree ex_ops.
 Proof. split; [exact t_in_eqb_eq|]. split; [exact t_algo_WF|]. split; [exact t_algo_H1|exact ex_run_ok]. Qed.
 
+(* ... and a richer history on which nothing is vacuous (7 nodes; root 0 with child 0 = node 1, display:none, over node 3, and
+   child 1 = node 2 over node 4): layout; node 1 is un-hidden (set_style); layout with another input; node 2's children are
+   replaced by a freshly built 2-node subtree with a display:none leaf (set_children); mark_dirty below it; node 2 is restyled.
+   The history satisfies run_ok; both of its layout passes SUCCEED (Some: `step` maps an out-of-fuel None to "tree unchanged",
+   which would make a history trivially well behaved); the first pass changes the tree; the final tree has another skeleton than
+   the initial one and is not the freshly built tree of its skeleton (node 1's subtree still holds valid cache entries, which
+   the relayout hits); and the two evaluations C01_root_output_equals_fresh compares both succeed, with the same output *)
+Definition hx_tree : ttree :=
+  fresh TS TIn TOut TLay 0%N
+    (SNode TS (0%N, false) [SNode TS (1%N, true) [SNode TS (3%N, false) []]; SNode TS (2%N, false) [SNode TS (4%N, false) []]]).
+Definition hx_sub : ttree := fresh TS TIn TOut TLay 0%N (SNode TS (5%N, false) [SNode TS (6%N, true) []]).
+Definition hx_ops : list (op TS TIn TOut TLay) :=
+  [OLayout _ _ _ _ 8 (PerformLayout, 5%N);
+   OMutate _ _ _ _ [0] (ESetStyle _ _ _ _ (1%N, false));
+   OLayout _ _ _ _ 8 (PerformLayout, 9%N);
+   OMutate _ _ _ _ [1] (ESetKids _ _ _ _ [hx_sub]);
+   OMutate _ _ _ _ [1; 0] (ENone _ _ _ _);
+   OMutate _ _ _ _ [1] (ESetStyle _ _ _ _ (7%N, false))].
+Definition hx_step := step TS TIn TOut TLay t_mode t_in_eqb t_is_none 0%N 0%N t_algo'.
+Definition hx_run : ttree := fold_left hx_step hx_ops hx_tree.
+Definition hx_memo := memo TS TIn TOut TLay t_mode t_in_eqb t_is_none 0%N 0%N t_algo'.
+
+Example C01_example_history_nontrivial :
+  run_ok TS TIn TOut TLay t_mode t_in_eqb t_is_none 0%N 0%N t_algo' hx_tree hx_ops /\
+  hx_memo 8 hx_tree (PerformLayout, 5%N) <> None /\
+  hx_memo 8 (fold_left hx_step (firstn 2 hx_ops) hx_tree) (PerformLayout, 9%N) <> None /\
+  hx_step hx_tree (OLayout _ _ _ _ 8 (PerformLayout, 5%N)) <> hx_tree /\
+  skel TS TIn TOut TLay hx_run <> skel TS TIn TOut TLay hx_tree /\
+  hx_run <> fresh TS TIn TOut TLay 0%N (skel TS TIn TOut TLay hx_run) /\
+  exists o t1 t2, hx_memo 8 hx_run (PerformLayout, 9%N) = Some (o, t1) /\
+                  hx_memo 8 (fresh TS TIn TOut TLay 0%N (skel TS TIn TOut TLay hx_run)) (PerformLayout, 9%N) = Some (o, t2).
+Proof.
+  split.
+  { unfold hx_ops. cbn [run_ok]. unfold op_ok, edit_ok.
+    repeat match goal with |- _ /\ _ => split end; try exact I; try reflexivity.
+    - vm_compute. auto.
+    - vm_compute. auto.
+    - constructor; [apply Valid_fresh|constructor].
+    - constructor; [apply (Inv_fresh TS TIn TOut TLay t_mode t_is_none 0%N 0%N t_algo')|constructor].
+    - constructor; [apply (Inv_fresh TS TIn TOut TLay t_mode t_is_none 0%N 0%N t_algo')|constructor].
+    - vm_compute. auto.
+    - vm_compute. auto. }
+  split; [vm_compute; discriminate|]. split; [vm_compute; discriminate|]. split; [vm_compute; discriminate|].
+  split; [vm_compute; discriminate|]. split; [vm_compute; discriminate|].
+  eexists; eexists; eexists. split; vm_compute; reflexivity.
+Qed.
+
+(* the premises `memo f t i = Some (o, t')` above are never false for lack of fuel: for every algorithm that addresses only
+   children that exist (Bounded), fuel >= the height of the tree makes the memoised evaluation succeed, whatever the caches
+   hold and whatever the key equality is.  None therefore means an out-of-range child index (a panic of the real code), and
+   the runner of the dirty-flag correspondence (Model/EngineRun.v: fuel 64, toy algorithm, Bounded by t_algo_bounded)
+   reports it as the marker -99 instead of a plausible result. *)
+Theorem C01_memo_total :
+  forall (S In Out Lay : Type) (mode : In -> RunMode) (in_eqb : In -> In -> bool) (is_none : S -> bool)
+         (hidden_out : Out) (zero_lay : Lay) (algo : S -> list S -> In -> Alg In Out Lay),
+    (forall s st i, Bounded In Out Lay (length st) (algo s st i)) ->
+    forall f t i, height S In Out Lay t <= f ->
+      exists o t', memo S In Out Lay mode in_eqb is_none hidden_out zero_lay algo f t i = Some (o, t').
+Proof. intros until algo. intros HB f t i Hh. apply memo_total; assumption. Qed.
+
+Example C01_toy_fuel_sufficient :
+  (forall s st i, Bounded TIn TOut TLay (length st) (t_algo s st i)) /\
+  (forall s st i, Bounded TIn TOut TLay (length st) (t_algo' s st i)) /\
+  height TS TIn TOut TLay ex_run = 3 /\
+  forall (t : ttree) i, height TS TIn TOut TLay t <= 64 -> exists o t', t_memo 64 t i = Some (o, t').
+Proof.
+  split; [exact t_algo_bounded|]. split; [exact t_algo'_bounded|]. split; [vm_compute; reflexivity|].
+  intros t i. apply t_memo_total.
+Qed.
+
 (* the TRACED memo the event-level correspondence runs (Model/EngineReplay.v: the same recursion returning, in addition, the
    list of compute_cached_layout / compute_hidden_layout / set_unrounded_layout events the implementation's trace hook logs)
    IS the memo of the theorems above: forgetting the events gives Engine.memo, for every instance of the engine *)
@@ -287,3 +357,4 @@ Print Assumptions C01_layouts_refuted_when_hidden_children_are_sized.
 Print Assumptions C01_layouts_refuted_when_hidden_child_is_set_before_its_query.
 Print Assumptions C01_traced_memo_is_memo.
 Print Assumptions C01_traced_memo_brackets.
+Print Assumptions C01_memo_total.
